@@ -25,8 +25,6 @@ pub trait Hooks: Sync + Send {
     fn thread_enter(&self, child: u64);
     /// Last call in a spawned thread (also on unwind).
     fn thread_exit(&self);
-    /// Wait (in simulated time) until the given managed thread has exited.
-    fn join_wait(&self, thread: std::thread::ThreadId);
     /// A tuning constant the harness may override.
     fn knob(&self, name: &'static str, default: usize) -> usize;
 }
@@ -84,15 +82,6 @@ impl Drop for ThreadGuard {
         if let Some(h) = HOOKS.get() {
             h.thread_exit()
         }
-    }
-}
-
-/// Called before `JoinHandle::join` on a managed thread: lets the scheduler run
-/// the other threads until the one to be joined has left the simulation, so
-/// that the join itself does not wait for a thread that needs to be scheduled.
-pub fn before_join(thread: std::thread::ThreadId) {
-    if let Some(h) = get() {
-        h.join_wait(thread)
     }
 }
 
